@@ -203,6 +203,8 @@ fn exec_c15(sc_in: &C15Scenario, paired: bool) -> Outcome {
     let has_failure = sc_owned.run.script.behav.iter().any(|b| b.code != 0);
     if paired && has_failure && sc_owned.listener.is_some() {
         sc_owned.run.script.flush_ms = Some(5);
+        // everybody writes first, then the failing child fails while its siblings are still running
+        sc_owned.run.script.strategy = Strategy::OutputThenFailures;
         for b in sc_owned.run.script.behav.iter_mut() {
             if b.code != 0 {
                 b.exit_pause_ms = 120;
